@@ -64,6 +64,8 @@ def gen_cases(tier):
     # every script of the generated pool shared with C10 / C12 is supported DDL: it never raises under silent=False and both settings agree
     from ..gen_inputs import inputs
     for n, (tag, ddl) in enumerate(inputs(tier)):
+        if tag == "ignored":
+            continue  # statements the grammar rejects on purpose (silently dropped): not "supported DDL"
         cases.append({"kind": "gen", "ddl": ddl, "mode": (modes if tier != "thorough" else ALL_MODES)[n % (len(modes) if tier != "thorough" else len(ALL_MODES))]})
     for bm in BAD_MODES:
         for silent in (True, False):
